@@ -304,8 +304,11 @@ pub fn kcore_decomposition(store: &LpgStore) -> KCoreResult {
         let i = *node_to_idx.get(&node).unwrap();
         for (neighbor, _) in store.edges_from(node, Direction::Outgoing) {
             if let Some(&j) = node_to_idx.get(&neighbor) {
-                adj[i].insert(j);
-                adj[j].insert(i);
+                // Simple undirected view: a self-loop adds no neighbour
+                if i != j {
+                    adj[i].insert(j);
+                    adj[j].insert(i);
+                }
             }
         }
     }
@@ -347,8 +350,10 @@ pub fn kcore_decomposition(store: &LpgStore) -> KCoreResult {
         let v = *buckets[min_deg].iter().next().unwrap();
         buckets[min_deg].remove(&v);
         removed[v] = true;
-        core[v] = min_deg;
+        // Degrees of the remaining vertices may drop below the level already reached:
+        // the core number is the largest minimum degree seen so far, not the current one.
         max_core_val = max_core_val.max(min_deg);
+        core[v] = max_core_val;
 
         // Update degrees of neighbors
         for &u in &adj[v] {
